@@ -24,9 +24,9 @@ VALUE = "tsg::graph::Value"
 
 def run(prog, rep):
     rep.rule("E8.j", "JSON writer tables (see level text)")
-    sers = {f.self_path: f for f in prog.fns.values() if f.trait == "serde::Serialize" and f.name == "serialize" and f.file == "src/graph.rs"}
+    sers = {f.self_path: f for f in prog.shape_fns() if f.trait == "serde::Serialize" and f.name == "serialize" and f.file == "src/graph.rs"}
     # ---- Identifier: attribute names (the keys of every `attrs` object) are written as they are
-    idf = [f for f in prog.fns.values() if f.trait == "serde::Serialize" and f.name == "serialize" and f.self_path == "tsg::Identifier"]
+    idf = [f for f in prog.shape_fns() if f.trait == "serde::Serialize" and f.name == "serialize" and f.self_path == "tsg::Identifier"]
     if len(idf) != 1:
         rep.violation("E8.j", "anchor-lost:Serialize for Identifier", "", "not found")
     else:
@@ -214,7 +214,7 @@ def run(prog, rep):
     # ---- Display / Debug of Value
     rep.rule("E8.d", "Display and Debug of Value have one arm per variant; Debug formats nested values with Debug (strings stay quoted), Display with Display")
     for trait, inner_ok, inner_bad in (("std::fmt::Debug", "new_debug", "new_display"), ("std::fmt::Display", "new_display", "new_debug")):
-        fl = [f for f in prog.fns.values() if f.self_path == VALUE and f.trait == trait and f.name == "fmt"]
+        fl = [f for f in prog.shape_fns() if f.self_path == VALUE and f.trait == trait and f.name == "fmt"]
         if len(fl) != 1:
             rep.violation("E8.d", "anchor-lost:%s for Value" % trait, "", "not found")
             continue
@@ -252,9 +252,9 @@ def run(prog, rep):
                   "nested values are formatted with the other trait at %s (a quoted string would lose its quotes / gain them)" % bad)
     # ---- pretty print
     rep.rule("C14.P", "pretty_print: for every node (index order) `node i` + its attributes, then for every edge of its sorted edge vector `edge i -> sink` + the edge's attributes; Attributes' Display prints `name: {value:?}` for every name in sorted order")
-    pp = [f for f in prog.fns.values() if f.trait == "std::fmt::Display" and f.name == "fmt" and "pretty_print::DisplayGraph" in (f.self_path or f.id)]
+    pp = [f for f in prog.shape_fns() if f.trait == "std::fmt::Display" and f.name == "fmt" and "pretty_print::DisplayGraph" in (f.self_path or f.id)]
     if len(pp) != 1:
-        pp = [f for f in prog.fns.values() if f.name == "fmt" and "pretty_print" in f.id and f.trait == "std::fmt::Display"]
+        pp = [f for f in prog.shape_fns() if f.name == "fmt" and "pretty_print" in f.id and f.trait == "std::fmt::Display"]
     if len(pp) != 1:
         rep.violation("C14.P", "anchor-lost:pretty_print Display", "", "not found (%d)" % len(pp))
     else:
@@ -274,7 +274,7 @@ def run(prog, rep):
                 args.append(canon(strip(tr.operand(t["args"][0]))))
         rep.check(any(a.endswith(".attributes") and "outgoing_edges" not in a for a in args) and any(re.search(r"\.1\.attributes$", a) and "outgoing_edges" in a for a in args), "C14.P", "pretty_print :: attributes shown", f.loc(),
                   "node.attributes and edge.attributes are both printed", "attributes of nodes or edges are not printed: %s" % [a[-60:] for a in args])
-    af = [f for f in prog.fns.values() if f.self_path == "tsg::graph::Attributes" and f.trait == "std::fmt::Display" and f.name == "fmt"]
+    af = [f for f in prog.shape_fns() if f.self_path == "tsg::graph::Attributes" and f.trait == "std::fmt::Display" and f.name == "fmt"]
     if len(af) == 1:
         f = af[0]
         body, tr = f.body, Tracer(f.body)
@@ -284,7 +284,7 @@ def run(prog, rep):
     e4.run_e4(prog, rep, file_filter=lambda f: f.file == "src/graph.rs")
     # ---- display_json
     rep.rule("C14.J", "display_json serialises the graph itself, and writes all bytes to stdout or to a freshly created/truncated file")
-    dj = [f for f in prog.fns.values() if f.name == "display_json" and f.self_path == "tsg::graph::Graph"]
+    dj = [f for f in prog.shape_fns() if f.name == "display_json" and f.self_path == "tsg::graph::Graph"]
     if len(dj) != 1:
         rep.violation("C14.J", "anchor-lost:display_json", "", "not found")
     else:
